@@ -2,3 +2,4 @@ import JdProofs.LcsProofs
 import JdProofs.EqualsList
 import JdProofs.NoPanic
 import JdProofs.StrictPatch
+import JdProofs.SetPatch
